@@ -267,3 +267,22 @@ def r10_8(rep):
             rep.check(own, "own-layout-blob@%s" % who, "the blob of the item being generated comes from `self`/`item` (found receiver `%s`, extra `%s`)" %
                       (recv[:60], extra[:40]), b.loc(c))
     rep.check(n >= 1, "to-opaque-sites", "%d blob constructions inside CodeGenerator impls" % n)
+
+
+@RULES.rule("R10.9", "a type outside the analysed set (blocklisted) does not read as zero-sized", floor=1)
+def r10_9(rep):
+    """The sizedness analysis visits allowlisted types only and stores nothing for its bottom value, so `lookup_sizedness` answers
+    `ZeroSized` for every blocklisted type.  `Base::requires_storage` then drops a blocklisted base class: `struct D : Blocked {}`
+    (Blocked is 8 bytes) is emitted as `{ _address: u8 }` and `struct E : Blocked { char c; }` replaces the base by padding, so the
+    use of the blocklisted type is no longer named and the layout of D changes."""
+    prog = rep.prog
+    lk = rep.need(prog.fn("ir::context::BindgenContext::lookup_sizedness"), "BindgenContext::lookup_sizedness")
+    src = " ".join((c.get("resolved") or c.get("callee") or "") for c in lk.calls())
+    guarded = "allowlisted_items" in src or "codegen_items" in src or "Type::layout" in src or "is_blocklisted" in src
+    # or the consumers that decide about storage look at the blocklist / layout themselves
+    rs = prog.fn("ir::comp::Base::requires_storage")
+    src2 = " ".join((c.get("resolved") or c.get("callee") or "") for c in rs.calls()) if rs is not None else ""
+    guarded = guarded or "is_blocklisted" in src2 or "Type::layout" in src2
+    rep.check(guarded, "sizedness:unanalysed-type-reads-as-zero-sized@lookup_sizedness",
+              "lookup_sizedness answers `ZeroSized` for any type without an entry, including blocklisted types the analysis never visits; "
+              "nothing on the way to `Base::requires_storage` checks the blocklist or the layout", lk.loc(lk.root))
